@@ -18,7 +18,7 @@ func TestDbg3(t *testing.T) {
 	// restart right after the jump, no GC
 	r, _ := newRunner(conf, newStats(nil))
 	for !r.complete() {
-		def, _, _ := r.succ()
+		def, _, _ := r.succ(1)
 		if def.K == "pblk" {
 			break
 		}
